@@ -83,7 +83,7 @@ def main():
         # private Lean builds made for this tree's source atoms (harness/engine.py: _select_lean): 180 MB each
         if os.path.isdir(os.path.join(VERIF, 'replays')):
             for d in os.listdir(os.path.join(VERIF, 'replays')):
-                if d.startswith('lean-') and d not in lean_copies:
+                if d.startswith('lean-') and d not in lean_copies and not os.environ.get('VERIF_KEEP_LEAN_COPIES'):
                     shutil.rmtree(os.path.join(VERIF, 'replays', d), ignore_errors=True)
     print(json.dumps(out, indent=1))
     if args.keep:
